@@ -39,7 +39,7 @@ def parseCmd : List String → Option Cmd
   | ["crashopen", p] => (parsePointName p).map fun p => .op (.crashInOpen p)
   | ["f"] => some (.op .look)
   | ["r"] => some (.op .look)
-  | ["snap"] => some (.op .look)
+  | ["snap"] => some (.op .snap)
   | ["logsize"] => some .logsize
   | _ => none
 
@@ -127,6 +127,11 @@ def observe (toks : List String) (ans : String) : Option (Option Step10) :=
       match parseRes ra, parseRes rb, parseSeen sch ents with
       | some ra, some rb, some after => some (some (.race a b ra rb after))
       | _, _, _ => none
+    | _ => none
+  | some (.op .snap) =>
+    match ws with
+    | [sch, ents] => (parseSeen sch ents).map fun a => some (.look a)
+    | [_] => some (some (.look { sch := [], store := none }))
     | _ => none
   | some (.op .look) =>
     match ws with
